@@ -73,6 +73,8 @@ def requirements(tier):
     req["infos-evaluated"] = 100
     req["infos-evaluated:derived"] = 100
     req["infos-evaluated:original"] = 50
+    req["form-name-spelling"] = 5000
+    req["form-name-spelling:short-alias"] = 500
     return req
 
 
@@ -276,6 +278,31 @@ def run_case(ctx, job, idx, rng, st):
                 roundtrip_check(z, f"{src}->{dst}->{src}->cartesian", w)
             except Exception as exc:
                 ctx.violation("C01/conversion-raises" + ("-hyperbolic" if hyper else ""), dict(w, exc=repr(exc)), f"{tag} raised {exc!r}")
+
+    # ---- the other documented spellings of the form names (short aliases, any letter case): the same form, the same numbers
+    ALIASES = {"keplerian_circular": "circular", "keplerian_mean": "mean", "keplerian_mean_circular": "mean_circular", "keplerian_eccentric": "eccentric"}
+    for full in forms:
+        spellings = [full.upper(), full.title()] + ([ALIASES[full], ALIASES[full].upper()] if full in ALIASES else [])
+        name = rng.choice(spellings)
+        w = dict(witness, form=full, spelling=name)
+        try:
+            how = rng.choice(["copy", "setter", "constructor"])
+            if how == "copy":
+                y = sv_cart.copy(form=name)
+            elif how == "setter":
+                y = sv_cart.copy()
+                y.form = name
+            else:
+                y = StateVector(list(truth[full]), date, name, frame)
+            ctx.count("form-name-spelling")
+            if full in ALIASES and name.lower() == ALIASES[full]:
+                ctx.count("form-name-spelling:short-alias")
+            ctx.expect(y.form.name == full, "C01/form-name-spelling-resolves-to-another-form", dict(w, how=how, got=y.form.name),
+                       f"form asked as {name!r} ({how}): got the form {y.form.name!r}")
+            compare_form(ctx, full, probe.arr(y), truth[full], c, rscale, vscale, hyper, dict(w, how=how), f"form asked as {name!r} ({how})")
+            roundtrip_check(y.copy(form="cartesian"), f"{name!r} ({how}) -> cartesian", dict(w, how=how))
+        except Exception as exc:
+            ctx.violation("C01/conversion-raises" + ("-hyperbolic" if hyper else ""), dict(w, exc=repr(exc)), f"form asked as {name!r} raised {exc!r}")
 
     infos_check(ctx, sv_cart, c, r, v, mu, rscale, vscale, hyper, witness, rng, forms)
 
